@@ -38,10 +38,15 @@ theorem ninjaEsc_id (b : Bool) (s : Str)
     rw [ninjaEsc_cons, h c (by simp), ih (fun d hd => h d (by simp [hd]))]
     rfl
 
-theorem ninjaQuote_eq (b : Bool) (s : Str) (h : NoNl s) : ninjaQuote b s = .ok (ninjaEsc b s) := by
+theorem ninjaQuote_eq' (b : Bool) (s : Str) (h : NoNl s) (hp : b = true → '|' ∉ s) :
+    ninjaQuote b s = .ok (ninjaEsc b s) := by
   unfold ninjaQuote
   have hn : s.contains '\n' = false := (contains_false_iff _ _).2 h
   rw [if_neg (by rw [hn]; exact Bool.false_ne_true)]
+  rw [if_neg (by
+    cases b with
+    | false => simp
+    | true => rw [(contains_false_iff _ _).2 (hp rfl)]; simp)]
   split
   · rfl
   · next hc =>
@@ -67,6 +72,9 @@ theorem ninjaQuote_eq (b : Bool) (s : Str) (h : NoNl s) : ninjaQuote b s = .ok (
         have : c ≠ ':' := by intro e; subst e; exact hm hc'
         simp [this]
     simp [h1, h2, h3, h4]
+
+theorem ninjaQuote_eq (s : Str) (h : NoNl s) : ninjaQuote false s = .ok (ninjaEsc false s) :=
+  ninjaQuote_eq' false s h (fun e => by cases e)
 
 theorem ninjaQuote_newline (b : Bool) (s : Str) (h : ¬ NoNl s) : ninjaQuote b s = .error .newline := by
   unfold ninjaQuote
